@@ -1,4 +1,107 @@
-/- driver operations of C07 (stub: no model yet) -/
+import EvoModel.Model.TextFormats
+/-! driver operations of C07 (also used by C06): texts are hex-encoded UTF-8, `-` = empty -/
 namespace Evo.Drv.C07
-def handle (_op : String) (_args : List String) : Option String := none
+open Evo Evo.Text
+
+def hexVal (c : Char) : Option Nat :=
+  if '0' ≤ c ∧ c ≤ '9' then some (c.toNat - 48)
+  else if 'a' ≤ c ∧ c ≤ 'f' then some (c.toNat - 87)
+  else none
+
+def hexBytes : List Char → ByteArray → Option ByteArray
+  | [], acc => some acc
+  | a :: b :: r, acc => do
+      let x ← hexVal a
+      let y ← hexVal b
+      hexBytes r (acc.push (UInt8.ofNat (16 * x + y)))
+  | _, _ => none
+
+def unhex (s : String) : Option Str :=
+  if s = "-" then some [] else do
+    let b ← hexBytes s.toList ByteArray.empty
+    let t ← String.fromUTF8? b
+    some t.toList
+
+def hexDigit (n : Nat) : Char := if n < 10 then Char.ofNat (48 + n) else Char.ofNat (87 + n)
+
+def tohex (s : Str) : String :=
+  let b := (String.ofList s).toUTF8
+  if b.size = 0 then "-" else
+  String.ofList (b.toList.flatMap fun u => [hexDigit (u.toNat / 16), hexDigit (u.toNat % 16)])
+
+def showErr : Err → String
+  | .format => "E_FORMAT"
+  | .range => "E_RANGE"
+
+def showPose (p : StampedPose) : String :=
+  showRats [p.stamp, p.x, p.y, p.z, p.qw, p.qx, p.qy, p.qz]
+
+def showMat (m : Mat34) : String := showRats (kittiRow m)
+
+def showList {α} (f : α → String) (r : Except Err (List α)) : String :=
+  match r with
+  | .error e => showErr e
+  | .ok l => toString l.length ++ " " ++ " ".intercalate (l.map f)
+
+/-- ops:
+  `rne p/q` → nearest double or `inf`;  `dec hex` → exact value or `E_FORMAT`;
+  `num hex` → `rne (parseDec ·)` or `E_FORMAT` / `E_RANGE`;
+  `tok x hex` → `OK` | `BADGRAMMAR` | `NOTCLOSE` (token written for the double `x`);
+  `tum|kitti|euroc h|p hex` → `n` rows (TUM/EuRoC: stamp x y z qw qx qy qz; KITTI: 12 row-major);
+  `tfjson hex` → `0|1 margin` + 16 rationals | `E_FORMAT` | `E_RANGE` | `NOJSON`;
+  `quat w x y z` → 9 rationals;  `issim3 rows cols v…` → `0|1 margin`;
+  `bag x` → `sec ns joined` -/
+def handle (op : String) (args : List String) : Option String :=
+  match op, args with
+  | "rne", [x] => do
+      let x ← parseRat? x
+      some (match F64.rne x with | none => "inf" | some r => showRat r)
+  | "dec", [h] => do
+      let s ← unhex h
+      some (match parseDec s with | none => "E_FORMAT" | some v => showRat v)
+  | "num", [h] => do
+      let s ← unhex h
+      some (match parseDec s with
+        | none => "E_FORMAT"
+        | some v => match F64.rne v with | none => "E_RANGE" | some r => showRat r)
+  | "tok", [x, h] => do
+      let x ← parseRat? x
+      let s ← unhex h
+      if !inGrammar s then some "BADGRAMMAR" else
+      match parseDec s with
+      | none => some "BADGRAMMAR"
+      | some y => some (if close x y then "OK" else "NOTCLOSE")
+  | "tum", [v, h] => do
+      let s ← unhex h
+      some (showList showPose (if v = "p" then readTumPath s else readTum s))
+  | "kitti", [v, h] => do
+      let s ← unhex h
+      some (showList showMat (if v = "p" then readKittiPath s else readKitti s))
+  | "euroc", [v, h] => do
+      let s ← unhex h
+      some (showList showPose (if v = "p" then readEurocPath s else readEuroc s))
+  | "tfjson", [h] => do
+      let s ← unhex h
+      some (match loadTransformJson s with
+        | none => "NOJSON"
+        | some (.error e) => showErr e
+        | some (.ok m) => (if isSim3Tol m then "1 " else "0 ") ++ showRat (sim3Margin m) ++ " " ++ showRats m.flatten)
+  | "quat", [w, x, y, z] => do
+      let w ← parseRat? w; let x ← parseRat? x; let y ← parseRat? y; let z ← parseRat? z
+      some (showRats (quatToRot w x y z).flatten)
+  | "issim3", r :: c :: l => do
+      let r ← r.toNat?
+      let c ← c.toNat?
+      let rs ← parseRats? l
+      let mat := if c = 0 then [rs] else (List.range r).map fun i => (rs.drop (i * c)).take c
+      some ((if isSim3Tol mat then "1 " else "0 ") ++ showRat (sim3Margin mat))
+  | "bag", [x] => do
+      let x ← parseRat? x
+      match bagSplit x with
+      | none => some "inf"
+      | some (s, n) => match bagJoin s n with
+        | none => some "inf"
+        | some r => some s!"{s} {n} {showRat r}"
+  | _, _ => none
+
 end Evo.Drv.C07
